@@ -45,7 +45,7 @@ $(BUILD)/rc-$(SAN)/%.o: src/gen/%.cpp | $(BUILD)/rc-$(SAN)
 	$(CXX) -std=gnu++17 -g -fno-omit-frame-pointer -Isrc $(FLAGS_$(SAN)) -MMD -MP -c $< -o $@
 
 $(OBJ)/narrow%.o: src/drv/narrow%.cpp | $(OBJ)
-	$(CXX) $(CXXFLAGS) -Wno-keyword-macro -fwrapv -fno-sanitize=signed-integer-overflow -DMEMUTILS_C='"$(REPO)/src/cbor/internal/memory_utils.c"' -MMD -MP -c $< -o $@
+	$(CXX) $(CXXFLAGS) -Wno-keyword-macro -fwrapv -fno-sanitize=all -w -DMEMUTILS_C='"$(REPO)/src/cbor/internal/memory_utils.c"' -MMD -MP -c $< -o $@
 $(OBJ)/drv_arithp.o: src/drv/drv_arith.cpp | $(OBJ)
 	$(CXX) $(CXXFLAGS) -DNO_INTERNALS -MMD -MP -c $< -o $@
 $(BIN)/drv_arith: $(OBJ)/drv_arith.o $(OBJ)/narrow8.o $(OBJ)/narrow16.o $(OBJ)/valloc.o $(RCOBJ) $(LIB) | $(BIN)
